@@ -38,6 +38,26 @@ Definition trust_crdt (cfg : crdt_cfg) (h : list top) (p : N) : bool :=
   trust_all cfg || N.eqb p (self cfg) || memN p (trust_set cfg h).
 Definition trust_raft (p : N) : bool := true.
 
+(* consensus/crdt/config.go applyJSONConfig: the trusted_peers value of the configuration section as decoded from
+   JSON (absent key / null = None). TrustAll and TrustedPeers are reset first; entries are read in file order; "*"
+   sets TrustAll, empties the list and stops. toJSONConfig writes ["*"] for TrustAll, else the list: ApplyEnvVars
+   (no variable set) is applyJSONConfig of toJSONConfig. *)
+Inductive tentry := TStar | TPeer (p : N).
+Fixpoint load_trusted (l : list tentry) (acc : list N) : bool * list N :=
+  match l with
+  | [] => (false, acc)
+  | TStar :: _ => (true, [])
+  | TPeer p :: r => load_trusted r (acc ++ [p])
+  end.
+Definition cfg_of_json (me : N) (tp : option (list tentry)) : crdt_cfg :=
+  match tp with
+  | None => mk_crdt_cfg false me []
+  | Some l => let '(a, ps) := load_trusted l [] in mk_crdt_cfg a me ps
+  end.
+Definition json_of_cfg (c : crdt_cfg) : option (list tentry) :=
+  Some (if trust_all c then [TStar] else map TPeer (configured c)).
+Definition env_pass (c : crdt_cfg) : crdt_cfg := cfg_of_json (self c) (json_of_cfg c).
+
 (* the last Trust/Distrust on p in a history, if any *)
 Definition op_peer (o : top) : N := match o with TTrust p | TDistrust p => p end.
 Definition last_op (p : N) (h : list top) : option bool :=
